@@ -81,6 +81,7 @@ type Exec struct {
 	denseIntMaps map[string][2]int
 	callN        map[string]int
 	muted        bool
+	initSeen     map[int]bool
 	safetySeen   map[int][]*Term
 	watch        []WatchTerm
 	evalExprs    []string
@@ -294,21 +295,47 @@ func (x *Exec) freshRef(st *State) *Term {
 	return ref
 }
 
+// initialRefs: a reference read from the initial heap (a select on an "@0" base family) denotes an
+// object that existed before the function started, hence lies below alloc0.
+func (x *Exec) initialRefs(t *Term, depth int) {
+	if depth > 12 || x.alloc0 == nil {
+		return
+	}
+	switch t.op {
+	case "app":
+		if strings.HasSuffix(t.name, "@0") {
+			if x.initSeen == nil {
+				x.initSeen = map[int]bool{}
+			}
+			if !x.initSeen[t.id] {
+				x.initSeen[t.id] = true
+				x.assumeGlobal(And(Le(IntLit(0), t), Lt(t, x.alloc0)))
+			}
+		}
+	case "ite":
+		x.initialRefs(t.args[1], depth+1)
+		x.initialRefs(t.args[2], depth+1)
+	}
+}
+
 // assume refs loaded from memory are already allocated
 func (x *Exec) noteLoaded(st *State, v Val) {
 	switch v.K {
 	case VPtr:
 		if len(v.Idx) == 1 && !v.Idx[0].IsLit() {
 			x.assume(st, And(Le(IntLit(0), v.Idx[0]), Lt(v.Idx[0], st.alloc)))
+			x.initialRefs(v.Idx[0], 0)
 		}
 	case VMap, VIface:
 		if v.T != nil && !v.T.IsLit() {
 			x.assume(st, And(Le(IntLit(0), v.T), Lt(v.T, st.alloc)))
+			x.initialRefs(v.T, 0)
 		}
 	case VSlice:
 		if !v.Arr.IsLit() {
 			x.assume(st, And(Le(IntLit(0), v.Arr), Lt(v.Arr, st.alloc), Le(IntLit(0), v.Off), Le(IntLit(0), v.Len)))
 			x.assume(st, Implies(Eq(v.Arr, IntLit(0)), Eq(v.Len, IntLit(0))))
+			x.initialRefs(v.Arr, 0)
 		}
 	case VStruct:
 		for _, f := range v.Fields {
